@@ -52,11 +52,16 @@ class PathRec(object):
         self.cur = cur
         self.guards = {}
         self.unknown_lits = []
+        # two different source-level tests can canonicalise to the same fact (`x` and `x is not None` on a star slot that
+        # is None-or-Parameter); a path on which they disagree cannot be taken
+        self.infeasible = False
         for atom, pol in list(outer_lits) + list(sp.lits):
             c = model.canon_lit(atom, pol, cur)
             if c is None:
                 self.unknown_lits.append((atom, pol))
             else:
+                if c[0] in self.guards and self.guards[c[0]] != c[1]:
+                    self.infeasible = True
                 self.guards[c[0]] = c[1]
         self.ces = model.canon_effects(sp.effects, toplevel=toplevel)
         self.raises = [c for c in self.ces if c[0] == 'raise']
@@ -132,9 +137,13 @@ def rule_kind_closure(check, model, rule):
     for kind, info, loop, outer in model.loops():
         for sp in loop.sub:
             rec = PathRec(model, sp, info.get('cur', {}))
+            if rec.infeasible:
+                continue
             n += _closure_of(check, model, rule, rec)
     for p, _ in model.ret_paths:
         rec = PathRec(model, p, {}, toplevel=True)
+        if rec.infeasible:
+            continue
         n += _closure_of(check, model, rule, rec, toplevel=True)
     check.floor(rule, 'puts into output buckets', n, 10)
 
@@ -483,7 +492,9 @@ def table_paths(model):
         if kind != 'zip':
             continue
         for sp in loop.sub:
-            yield info, loop, PathRec(model, sp, info['cur'])
+            rec = PathRec(model, sp, info['cur'])
+            if not rec.infeasible:
+                yield info, loop, rec
 
 
 def rule_tables(check, model, rule, categories, title, witness=None):
@@ -560,6 +571,8 @@ def rule_kwo_and_stars(check, model, rule, categories):
         el = info['cur'][side]
         for sp in loop.sub:
             rec = PathRec(model, sp, info['cur'])
+            if rec.infeasible:
+                continue
             n += 1
             node = rec.node() or loop.node
             k = rec.g(('in_kwo', OTHER[side], el))
@@ -630,6 +643,8 @@ def rule_kwo_and_stars(check, model, rule, categories):
     seen = set()
     for p, items in list(model.ret_paths) + [(p, None) for p in model.raise_paths]:
         rec = PathRec(model, p, {}, toplevel=True)
+        if rec.infeasible:
+            continue
         if rec.unknown_lits:
             key = 'toplevel|' + lits_text(rec.unknown_lits)
             if key not in seen:
